@@ -191,6 +191,12 @@ def schemas(draw, cfg=None, depth=None, _counter=None):
             s["required"] = draw(
                 st.lists(st.sampled_from(pool), max_size=3, unique=True)
             )
+        if cfg.defaults:
+            # required-with-default (the documented waiver) needs both on one property
+            for name in s.get("required", []):
+                sub_s = s.get("properties", {}).get(name)
+                if isinstance(sub_s, dict) and "default" not in sub_s and draw(st.integers(0, 2)) == 0:
+                    sub_s["default"] = draw(jv.scalars)
         for kw in ("minProperties", "maxProperties"):
             if kw in kws:
                 s[kw] = draw(st.integers(0, 3))
